@@ -582,3 +582,57 @@ package raft
 //@ ensures old(r.state) != leader && old(r.log.committed) > old(r.applied) ==> r.state == old(r.state) && r.term == old(r.term) && r.vote == old(r.vote) && len(r.msgs) == old(len(r.msgs))
 //@ ensures old(r.state) == leader ==> r.state == leader && r.term == old(r.term)
 //@ ensures r.state != old(r.state) ==> old(r.state) != nonVoting && old(r.state) != witness
+
+// ---------------------------------------------------------------- Peer: what is handed out for persistence / apply (C19 C04 C03)
+
+//@ func getUpdateCommit [C19 C04]
+//@ ensures result.ReadyToRead == len(ud.ReadyToReads) && result.LastApplied == ud.LastApplied
+//@ ensures result.Processed == max(ite(len(ud.CommittedEntries) > 0, ud.CommittedEntries[len(ud.CommittedEntries) - 1].Index, 0), ud.Snapshot.Index)
+//@ ensures len(ud.EntriesToSave) > 0 ==> result.StableLogTo == ud.EntriesToSave[len(ud.EntriesToSave) - 1].Index && result.StableLogTerm == ud.EntriesToSave[len(ud.EntriesToSave) - 1].Term
+//@ ensures len(ud.EntriesToSave) == 0 ==> result.StableLogTo == 0 && result.StableLogTerm == 0
+//@ ensures result.StableSnapshotTo == ud.Snapshot.Index
+
+//@ func setFastApply [C19]
+//@ ensures result.FastApply == (ud.Snapshot.Index == 0 && !(len(ud.CommittedEntries) > 0 && len(ud.EntriesToSave) > 0 &&
+//@    ud.CommittedEntries[len(ud.CommittedEntries) - 1].Index >= ud.EntriesToSave[0].Index &&
+//@    ud.CommittedEntries[len(ud.CommittedEntries) - 1].Index <= ud.EntriesToSave[len(ud.EntriesToSave) - 1].Index))
+//@ ensures ptr(result.CommittedEntries) == ptr(ud.CommittedEntries) && len(result.CommittedEntries) == len(ud.CommittedEntries)
+//@ ensures ptr(result.EntriesToSave) == ptr(ud.EntriesToSave) && len(result.EntriesToSave) == len(ud.EntriesToSave)
+//@ ensures result.State == ud.State && result.Snapshot.Index == ud.Snapshot.Index && result.LastApplied == ud.LastApplied
+
+// an entry is never handed out for apply before it is committed and handed out for persistence
+//@ func validateUpdate [C19 C04]
+//@ ensures len(ud.CommittedEntries) > 0 && len(ud.EntriesToSave) > 0 ==>
+//@    ud.CommittedEntries[len(ud.CommittedEntries) - 1].Index <= ud.EntriesToSave[len(ud.EntriesToSave) - 1].Index
+//@ ensures ud.Commit > 0 && len(ud.CommittedEntries) > 0 ==> ud.CommittedEntries[len(ud.CommittedEntries) - 1].Index <= ud.Commit
+
+//@ func (p *Peer) getUpdate [C19 C04 C03]
+//@ noframe
+//@ requires p.raft != nil && p.raft.wf() && p.raft.log.processed < MaxUint64 && p.raft.log.inmem.savedTo < MaxUint64
+//@ modifies elems(p.raft.msgs)
+//@ ensures result1 == nil ==> result0.ShardID == p.raft.shardID && result0.ReplicaID == p.raft.replicaID && result0.LastApplied == lastApplied
+// what must be persisted: exactly the in-memory entries above savedTo
+//@ ensures result1 == nil ==> (forall i int :: 0 <= i && i < len(result0.EntriesToSave) ==> result0.EntriesToSave[i].Index == p.raft.log.inmem.savedTo + 1 + i)
+//@ ensures result1 == nil && p.raft.log.inmem.savedTo + 1 >= p.raft.log.inmem.markerIndex && p.raft.log.inmem.savedTo + 1 <= p.raft.log.inmem.markerIndex + len(p.raft.log.inmem.entries) ==>
+//@    len(result0.EntriesToSave) == p.raft.log.inmem.markerIndex + len(p.raft.log.inmem.entries) - (p.raft.log.inmem.savedTo + 1)
+// what may be applied: contiguous, starting at the first not yet handed out, never above committed
+//@ ensures result1 == nil ==> (forall i int :: 0 <= i && i < len(result0.CommittedEntries) ==> result0.CommittedEntries[i].Index == max(p.raft.log.processed + 1, p.raft.log.firstIdx()) + i && result0.CommittedEntries[i].Index <= p.raft.log.committed)
+//@ ensures result1 == nil && !moreToApply ==> len(result0.CommittedEntries) == 0
+// V4: the hard state is handed out for persistence whenever it differs from the last persisted one
+//@ ensures result1 == nil && !(p.raft.term == p.prevState.Term && p.raft.vote == p.prevState.Vote && p.raft.log.committed == p.prevState.Commit) ==>
+//@    result0.State.Term == p.raft.term && result0.State.Vote == p.raft.vote && result0.State.Commit == p.raft.log.committed
+//@ ensures result1 == nil && p.raft.log.inmem.snapshot != nil ==> result0.Snapshot.Index == p.raft.log.inmem.snapshot.Index && result0.Snapshot.Term == p.raft.log.inmem.snapshot.Term
+//@ ensures result1 == nil && p.raft.log.inmem.snapshot == nil ==> result0.Snapshot.Index == 0
+
+//@ func (p *Peer) GetUpdate [C19 C04 C03]
+//@ noframe
+//@ requires p.raft != nil && p.raft.wf() && p.raft.log.processed < MaxUint64 && p.raft.log.inmem.savedTo < MaxUint64
+//@ modifies elems(p.raft.msgs)
+//@ ensures result1 == nil ==> (forall i int :: 0 <= i && i < len(result0.EntriesToSave) ==> result0.EntriesToSave[i].Index == p.raft.log.inmem.savedTo + 1 + i)
+//@ ensures result1 == nil ==> (forall i int :: 0 <= i && i < len(result0.CommittedEntries) ==> result0.CommittedEntries[i].Index == max(p.raft.log.processed + 1, p.raft.log.firstIdx()) + i && result0.CommittedEntries[i].Index <= p.raft.log.committed)
+//@ ensures result1 == nil && len(result0.CommittedEntries) > 0 && len(result0.EntriesToSave) > 0 ==>
+//@    result0.CommittedEntries[len(result0.CommittedEntries) - 1].Index <= result0.EntriesToSave[len(result0.EntriesToSave) - 1].Index
+//@ ensures result1 == nil ==> result0.UpdateCommit.Processed == max(ite(len(result0.CommittedEntries) > 0, result0.CommittedEntries[len(result0.CommittedEntries) - 1].Index, 0), result0.Snapshot.Index)
+//@ ensures result1 == nil && len(result0.EntriesToSave) > 0 ==> result0.UpdateCommit.StableLogTo == result0.EntriesToSave[len(result0.EntriesToSave) - 1].Index
+//@ ensures result1 == nil ==> result0.UpdateCommit.StableSnapshotTo == result0.Snapshot.Index && result0.UpdateCommit.LastApplied == lastApplied
+//@ ensures result1 == nil && result0.FastApply ==> result0.Snapshot.Index == 0
